@@ -130,7 +130,22 @@ def run(ctx):
             want.append("0x" + pyref.keccak256(b"\x19Ethereum Signed Message:\n" + str(len(m2)).encode() + m2).hex())
         hruns.append(dict(args=["hex", "encode", p2]))
         want.append("0x" + m2.hex())
-    extra = ctx.cli(hruns[len(hout):])
+    # very large inputs (around 2^24 bytes and beyond) by file and on stdin: every byte counts (expected digests from the sha3
+    # crate, computed without transferring the data: harness op prim.keccak_fill)
+    pat = rbytes(rng, 977)
+    bigsizes = [(1 << 24) - 1, (1 << 24) + 1, (1 << 24) + (1 << 20) + rng.randrange(1000)] + ([(1 << 26) + 5] if thorough else [])
+    fills = ctx.harness([("prim.keccak_fill", b"", pat, str(n)) for n in bigsizes] +
+                        [("prim.keccak_fill", b"\x19Ethereum Signed Message:\n" + str(n).encode(), pat, str(n)) for n in bigsizes], timeout=300)
+    for k, n in enumerate(bigsizes):
+        p3 = os.path.join(tmp, "huge%d.bin" % k)
+        data = (pat * (n // len(pat) + 1))[:n]
+        open(p3, "wb").write(data)
+        for args, stdin, f in ((["hash", "data", p3], None, fills[k]), (["hash", "data", "-"], data, fills[k]),
+                               (["hash", "message", p3], None, fills[len(bigsizes) + k]), (["hash", "message", "-"], data, fills[len(bigsizes) + k])):
+            hruns.append(dict(args=args, stdin=stdin, timeout=300))
+            want.append("0x" + f.fields[0].hex() if f.tag == "ok" else "harness failed: " + f.msg)
+        del data
+    extra = ctx.cli(hruns[len(hout):], timeout=300)
     hout += [r.stdout.decode().strip() if r.cls == "ok" else None for r in extra]
     for rn, got, w in zip(hruns, hout, want):
         ctx.count("hash-subcommands")
